@@ -1,9 +1,219 @@
-(* C08 — bulk copy.  Preliminary statement (the full refinement theorems for the optimised paths are
-   being integrated): copying zero bits is the identity for the generic loop over ANY reader/writer. *)
-From DSI Require Import Base Prog World.
+(* C08: bulk copy moves exactly n bits and leaves both streams intact.
+   copy_default = the default trait loop (read_bits(min(n,64)) / write_bits); br_copy_to = BufBitReader's
+   optimised copy_to; bw_copy_from = BufBitWriter's optimised copy_from (World.v).
+   Statements only; proofs are in theories/CopyProofs.v. *)
+From DSI Require Import Base Words Prog Writer Reader Abs World CopyProofs.
 Open Scope N_scope.
 
-Theorem C08_n_zero_generic_partial : forall (SR SW : Type) (PR : rprims SR) (PW : wprims SW) r w,
+(* ---------------------------------------------------------------- L0: the specification *)
+(* spec_copy strict n r b := match s_take strict n r with Ok (bs, r') => Ok (r', b ++ bs) | Err => Err | ... end *)
+Theorem C08_spec_copy_def : forall strict n r b,
+  spec_copy strict n r b =
+  match s_take strict n r with
+  | Ok (bs, r') => Ok (r', b ++ bs) | Err => Err | Fail => Fail | Fuel => Fuel end.
+Proof. exact CopyProofs.spec_copy_def. Qed.
+Print Assumptions C08_spec_copy_def.
+
+(* the generic chunked loop on the L0 primitives IS the specification: for n > 0 literally (all three
+   fields of the reader state, sr_peeked included) *)
+Theorem C08_generic_spec : forall E strict cap n r b, 0 < n ->
+  copy_default (sprims E strict cap) (swprims E false) n r b = spec_copy strict n r b.
+Proof. exact CopyProofs.generic_spec. Qed.
+Print Assumptions C08_generic_spec.
+
+(* for n = 0 the loop returns its arguments; the specification additionally resets sr_peeked *)
+Theorem C08_generic_spec_zero : forall E strict cap r b,
+  copy_default (sprims E strict cap) (swprims E false) 0 r b = Ok (r, b) /\
+  spec_copy strict 0 r b = Ok ({| sr_rest := sr_rest r; sr_pos := sr_pos r + 0; sr_peeked := 0 |}, b ++ []).
+Proof. exact CopyProofs.generic_spec_zero. Qed.
+Print Assumptions C08_generic_spec_zero.
+
+(* hence for every n: same outcome, same written bits, same reader up to sr_peeked *)
+Theorem C08_generic_spec_all : forall E strict cap n r b,
+  match spec_copy strict n r b with
+  | Ok (r1, b1) => exists r2, copy_default (sprims E strict cap) (swprims E false) n r b = Ok (r2, b1) /\
+                              sr_rest r2 = sr_rest r1 /\ sr_pos r2 = sr_pos r1
+  | Err => copy_default (sprims E strict cap) (swprims E false) n r b = Err
+  | _ => False
+  end.
+Proof. exact CopyProofs.generic_spec_all. Qed.
+Print Assumptions C08_generic_spec_all.
+
+(* ---------------------------------------------------------------- copy_to (BufBitReader) *)
+(* into the L2 writer of any word width Ww, unbounded sink: appends exactly the reader's next n bits
+   (zero-extended source: padded), advances the reader by exactly n, both invariants hold again *)
+Theorem C08_copy_to : forall E W Ww n s pos sw b,
+  RInv E W s pos -> wrel E Ww b sw -> wk_cap (bw_sink sw) = None ->
+  (ws_strict (br_src s) = true -> pos + n <= W * N.of_nat (length (ws_words (br_src s)))) ->
+  exists s' sw', br_copy_to E false (bwprims E Ww false) W n s sw = Ok (s', sw') /\
+    RInv E W s' (pos + n) /\
+    wrel E Ww (b ++ take_pad (N.to_nat n) (skipn (N.to_nat pos) (src_bits E W (br_src s)))) sw' /\
+    wk_cap (bw_sink sw') = None /\
+    ws_words (br_src s') = ws_words (br_src s) /\ ws_strict (br_src s') = ws_strict (br_src s).
+Proof. exact CopyProofs.copy_to_machine_false. Qed.
+Print Assumptions C08_copy_to.
+
+(* the `checks` build: all values handed to write_bits are clean, the result is Ok (never Fail) *)
+Theorem C08_copy_to_checks : forall E W Ww n s pos sw b,
+  RInv E W s pos -> wrel E Ww b sw -> wk_cap (bw_sink sw) = None ->
+  (ws_strict (br_src s) = true -> pos + n <= W * N.of_nat (length (ws_words (br_src s)))) ->
+  exists s' sw', br_copy_to E true (bwprims E Ww true) W n s sw = Ok (s', sw') /\
+    RInv E W s' (pos + n) /\
+    wrel E Ww (b ++ take_pad (N.to_nat n) (skipn (N.to_nat pos) (src_bits E W (br_src s)))) sw' /\
+    wk_cap (bw_sink sw') = None /\
+    ws_words (br_src s') = ws_words (br_src s) /\ ws_strict (br_src s') = ws_strict (br_src s).
+Proof. exact CopyProofs.copy_to_machine_checks. Qed.
+Print Assumptions C08_copy_to_checks.
+
+(* into the L0 writer (either build) *)
+Theorem C08_copy_to_spec_writer : forall E checks W n s pos b,
+  RInv E W s pos ->
+  (ws_strict (br_src s) = true -> pos + n <= W * N.of_nat (length (ws_words (br_src s)))) ->
+  exists s', br_copy_to E checks (swprims E checks) W n s b =
+             Ok (s', b ++ take_pad (N.to_nat n) (skipn (N.to_nat pos) (src_bits E W (br_src s)))) /\
+    RInv E W s' (pos + n) /\
+    ws_words (br_src s') = ws_words (br_src s) /\ ws_strict (br_src s') = ws_strict (br_src s).
+Proof. exact CopyProofs.copy_to_spec_writer. Qed.
+Print Assumptions C08_copy_to_spec_writer.
+
+(* into ANY destination that simulates the spec writer on write_bits (relation Rw) *)
+Theorem C08_copy_to_any_writer : forall (SW : Type) (PW : wprims SW) E checks (Rw : bits -> SW -> Prop),
+  (forall v n b w, n <= 64 -> (checks = true -> v < 2 ^ n) -> Rw b w ->
+     exists x w', q_bits PW v n w = Ok (x, w') /\ Rw (b ++ field E v (N.to_nat n)) w') ->
+  forall W n s pos b w,
+  RInv E W s pos -> Rw b w ->
+  (ws_strict (br_src s) = true -> pos + n <= W * N.of_nat (length (ws_words (br_src s)))) ->
+  exists s' w', br_copy_to E checks PW W n s w = Ok (s', w') /\ RInv E W s' (pos + n) /\
+    Rw (b ++ take_pad (N.to_nat n) (skipn (N.to_nat pos) (src_bits E W (br_src s)))) w' /\
+    ws_words (br_src s') = ws_words (br_src s) /\ ws_strict (br_src s') = ws_strict (br_src s).
+Proof. exact (@CopyProofs.copy_to_ok). Qed.
+Print Assumptions C08_copy_to_any_writer.
+
+(* a strict source with fewer than n bits left: Err *)
+Theorem C08_copy_to_err : forall E checks W Ww n s pos sw b,
+  RInv E W s pos -> wrel E Ww b sw -> wk_cap (bw_sink sw) = None ->
+  ws_strict (br_src s) = true -> W * N.of_nat (length (ws_words (br_src s))) < pos + n ->
+  br_copy_to E checks (bwprims E Ww checks) W n s sw = Err.
+Proof. exact CopyProofs.copy_to_machine_err. Qed.
+Print Assumptions C08_copy_to_err.
+
+Theorem C08_copy_to_spec_writer_err : forall E checks W n s pos b,
+  RInv E W s pos -> ws_strict (br_src s) = true -> W * N.of_nat (length (ws_words (br_src s))) < pos + n ->
+  br_copy_to E checks (swprims E checks) W n s b = Err.
+Proof. exact CopyProofs.copy_to_spec_writer_err. Qed.
+Print Assumptions C08_copy_to_spec_writer_err.
+
+(* ---------------------------------------------------------------- copy_from (BufBitWriter) *)
+(* out of the L2 buffered reader of any word width Wr, writer of any word width W (W > 64: the
+   fall-back to the generic loop), either build *)
+Theorem C08_copy_from : forall E checks W Wr n sw b sr pos,
+  wrel E W b sw -> wk_cap (bw_sink sw) = None -> RInv E Wr sr pos ->
+  (ws_strict (br_src sr) = true -> pos + n <= Wr * N.of_nat (length (ws_words (br_src sr)))) ->
+  exists sr' sw', bw_copy_from E checks (brprims E Wr) W n sr sw = Ok (sr', sw') /\
+    RInv E Wr sr' (pos + n) /\
+    wrel E W (b ++ take_pad (N.to_nat n) (skipn (N.to_nat pos) (src_bits E Wr (br_src sr)))) sw' /\
+    wk_cap (bw_sink sw') = None /\
+    ws_words (br_src sr') = ws_words (br_src sr) /\ ws_strict (br_src sr') = ws_strict (br_src sr).
+Proof. exact CopyProofs.copy_from_machine. Qed.
+Print Assumptions C08_copy_from.
+
+(* out of the L0 reader *)
+Theorem C08_copy_from_spec_reader : forall E checks W strict cap n sw b r,
+  wrel E W b sw -> wk_cap (bw_sink sw) = None ->
+  (strict = true -> n <= N.of_nat (length (sr_rest r))) ->
+  exists r' sw', bw_copy_from E checks (sprims E strict cap) W n r sw = Ok (r', sw') /\
+    sr_rest r' = skipn (N.to_nat n) (sr_rest r) /\ sr_pos r' = sr_pos r + n /\
+    wrel E W (b ++ take_pad (N.to_nat n) (sr_rest r)) sw' /\ wk_cap (bw_sink sw') = None.
+Proof. exact CopyProofs.copy_from_spec_reader. Qed.
+Print Assumptions C08_copy_from_spec_reader.
+
+(* out of ANY source that simulates the spec reader on read_bits (relation Rr over the stream l) *)
+Theorem C08_copy_from_any_reader : forall (SR : Type) (PR : rprims SR) E checks (l : bits) strict (Rr : N -> SR -> Prop),
+  (forall n pos r, n <= 64 -> Rr pos r -> (strict = true -> pos + n <= N.of_nat (length l)) ->
+     exists r', p_bits PR n r = Ok (val E (take_pad (N.to_nat n) (skipn (N.to_nat pos) l)), r') /\ Rr (pos + n) r') ->
+  forall W n r pos b sw,
+  wrel E W b sw -> wk_cap (bw_sink sw) = None -> Rr pos r ->
+  (strict = true -> pos + n <= N.of_nat (length l)) ->
+  exists r' sw', bw_copy_from E checks PR W n r sw = Ok (r', sw') /\ Rr (pos + n) r' /\
+    wrel E W (b ++ take_pad (N.to_nat n) (skipn (N.to_nat pos) l)) sw' /\ wk_cap (bw_sink sw') = None.
+Proof. exact (@CopyProofs.copy_from_ok). Qed.
+Print Assumptions C08_copy_from_any_reader.
+
+Theorem C08_copy_from_err : forall E checks W Wr n sw b sr pos,
+  wrel E W b sw -> wk_cap (bw_sink sw) = None -> RInv E Wr sr pos ->
+  ws_strict (br_src sr) = true -> Wr * N.of_nat (length (ws_words (br_src sr))) < pos + n ->
+  bw_copy_from E checks (brprims E Wr) W n sr sw = Err.
+Proof. exact CopyProofs.copy_from_machine_err. Qed.
+Print Assumptions C08_copy_from_err.
+
+Theorem C08_copy_from_spec_reader_err : forall E checks W cap n sw b r,
+  wrel E W b sw -> wk_cap (bw_sink sw) = None -> N.of_nat (length (sr_rest r)) < n ->
+  bw_copy_from E checks (sprims E true cap) W n r sw = Err.
+Proof. exact CopyProofs.copy_from_spec_reader_err. Qed.
+Print Assumptions C08_copy_from_spec_reader_err.
+
+(* ---------------------------------------------------------------- the generic loop on the machines *)
+Theorem C08_copy_default_machine : forall E checks W Ww n s pos sw b,
+  RInv E W s pos -> wrel E Ww b sw -> wk_cap (bw_sink sw) = None ->
+  (ws_strict (br_src s) = true -> pos + n <= W * N.of_nat (length (ws_words (br_src s)))) ->
+  exists s' sw', copy_default (brprims E W) (bwprims E Ww checks) n s sw = Ok (s', sw') /\
+    RInv E W s' (pos + n) /\
+    wrel E Ww (b ++ take_pad (N.to_nat n) (skipn (N.to_nat pos) (src_bits E W (br_src s)))) sw' /\
+    wk_cap (bw_sink sw') = None /\
+    ws_words (br_src s') = ws_words (br_src s) /\ ws_strict (br_src s') = ws_strict (br_src s).
+Proof. exact CopyProofs.copy_default_machine. Qed.
+Print Assumptions C08_copy_default_machine.
+
+(* ---------------------------------------------------------------- specialised = generic (feature no_copy_impls) *)
+Theorem C08_specialised_eq_generic_copy_to : forall E checks W Ww n s pos sw b,
+  RInv E W s pos -> wrel E Ww b sw -> wk_cap (bw_sink sw) = None ->
+  (ws_strict (br_src s) = true -> pos + n <= W * N.of_nat (length (ws_words (br_src s)))) ->
+  exists s1 w1 s2 w2,
+    br_copy_to E checks (bwprims E Ww checks) W n s sw = Ok (s1, w1) /\
+    copy_default (brprims E W) (bwprims E Ww checks) n s sw = Ok (s2, w2) /\
+    RInv E W s1 (pos + n) /\ RInv E W s2 (pos + n) /\
+    rabs E W s1 (pos + n) 0 = rabs E W s2 (pos + n) 0 /\
+    WInv Ww w1 /\ WInv Ww w2 /\ wabs E Ww w1 = wabs E Ww w2.
+Proof. exact CopyProofs.specialised_eq_generic_copy_to. Qed.
+Print Assumptions C08_specialised_eq_generic_copy_to.
+
+Theorem C08_specialised_eq_generic_copy_from : forall E checks W Wr n sw b sr pos,
+  wrel E W b sw -> wk_cap (bw_sink sw) = None -> RInv E Wr sr pos ->
+  (ws_strict (br_src sr) = true -> pos + n <= Wr * N.of_nat (length (ws_words (br_src sr)))) ->
+  exists s1 w1 s2 w2,
+    bw_copy_from E checks (brprims E Wr) W n sr sw = Ok (s1, w1) /\
+    copy_default (brprims E Wr) (bwprims E W checks) n sr sw = Ok (s2, w2) /\
+    RInv E Wr s1 (pos + n) /\ RInv E Wr s2 (pos + n) /\
+    rabs E Wr s1 (pos + n) 0 = rabs E Wr s2 (pos + n) 0 /\
+    WInv W w1 /\ WInv W w2 /\ wabs E W w1 = wabs E W w2.
+Proof. exact CopyProofs.specialised_eq_generic_copy_from. Qed.
+Print Assumptions C08_specialised_eq_generic_copy_from.
+
+(* strict source, too few bits: all three implementations return Err *)
+Theorem C08_specialised_eq_generic_err : forall E checks W Ww n s pos sw b,
+  RInv E W s pos -> wrel E Ww b sw -> wk_cap (bw_sink sw) = None ->
+  ws_strict (br_src s) = true -> W * N.of_nat (length (ws_words (br_src s))) < pos + n ->
+  br_copy_to E checks (bwprims E Ww checks) W n s sw = Err /\
+  bw_copy_from E checks (brprims E W) Ww n s sw = Err /\
+  copy_default (brprims E W) (bwprims E Ww checks) n s sw = Err.
+Proof. exact CopyProofs.specialised_eq_generic_err. Qed.
+Print Assumptions C08_specialised_eq_generic_err.
+
+(* ---------------------------------------------------------------- n = 0 *)
+Theorem C08_n_zero_copy_to : forall (SW : Type) E checks (PW : wprims SW) W s w,
+  br_copy_to E checks PW W 0 s w = Ok (s, w).
+Proof. exact (@CopyProofs.copy_zero_to). Qed.
+Print Assumptions C08_n_zero_copy_to.
+
+Theorem C08_n_zero_default : forall (SR SW : Type) (PR : rprims SR) (PW : wprims SW) r w,
   copy_default PR PW 0 r w = Ok (r, w).
-Proof. intros. reflexivity. Qed.
-Print Assumptions C08_n_zero_generic_partial.
+Proof. exact (@CopyProofs.copy_zero_default). Qed.
+Print Assumptions C08_n_zero_default.
+
+Theorem C08_n_zero_copy_from : forall E checks W Wr sw b sr pos,
+  wrel E W b sw -> wk_cap (bw_sink sw) = None -> RInv E Wr sr pos ->
+  exists sr' sw', bw_copy_from E checks (brprims E Wr) W 0 sr sw = Ok (sr', sw') /\
+    RInv E Wr sr' pos /\ wrel E W b sw' /\
+    rabs E Wr sr' pos 0 = rabs E Wr sr pos 0 /\ wabs E W sw' = wabs E W sw.
+Proof. exact CopyProofs.copy_zero_from. Qed.
+Print Assumptions C08_n_zero_copy_from.
